@@ -319,6 +319,24 @@ def run(ctx):
                             r7.fail(f"{fi.fq}:{norm(x)[:60]}", f"identity comparison with the constant {bad!r}", fi.loc(x))
     r7.ok("identity comparisons census", f"{n_is} `is` / `is not` comparisons examined; none compares with a string or number constant", "")
     rules.append(r7)
+    # the JSON text channel itself: written in the dict's own order (pyxform derives the order of instances, itext
+    # entries and translations from dict order) and read afresh on every load
+    r8 = Rule("C16", "C16.R8", "JSON text is written in dict order and read afresh", floor=2,
+              necessary="sorted keys reorder choices / translations after a reload; a memoised reader returns an older dump of the same path")
+    for fi in repo.all_functions():
+        for c in walk_own(fi.node):
+            if isinstance(c, ast.Call) and norm(c.func) in ("json.dump", "json.dumps"):
+                sk = next((k.value for k in c.keywords if k.arg == "sort_keys"), None)
+                okc, v = const_str(ctx, fi.module, sk) if sk is not None else (True, False)
+                if fi.module.name.startswith("pyxform.validators"):
+                    continue  # the validator updater's own bookkeeping files
+                r8.check(okc and not v, f"{fi.fq}:{norm(c)[:50]}", "keys are written in the dict's own order", fi.loc(c), why_fail=f"sort_keys={norm(sk) if sk is not None else None}")
+    loaders = _CG(repo, it0).reachable(["pyxform.utils:get_pyobj_from_json", "pyxform.builder:create_survey_element_from_json"])
+    for fi in repo.all_functions():
+        if fi.fq in loaders and any("cache" in norm(d) for d in fi.node.decorator_list) and any(isinstance(c, ast.Call) and call_name(c) in ("open", "read_text", "load") for c in walk_own(fi.node)):
+            r8.fail(f"{fi.fq}:memoised reader", "a function that reads the JSON file is memoised: a later dump written to the same path is not seen", fi.loc())
+    r8.ok("JSON readers", f"{sum(1 for f in repo.all_functions() if f.fq in loaders)} functions on the load path examined; none memoises a file read", "")
+    rules.append(r8)
     # to_json_dict walks get_slot_names(): every advertised name must be a real slot of the class (own or inherited),
     # else dumping an element of that class raises AttributeError
     for ci in repo.all_classes():
